@@ -495,6 +495,9 @@ func (c *Ctx) checkParseBlockTable(P map[string]int64) {
 }
 
 // checkNormalPredicate: truth table + arm effects of runModeNormal.
+// normalPredRule: rule id under which checkNormalPredicate records (C21 reuses it as R21e).
+var normalPredRule = "R04c"
+
 func (c *Ctx) checkNormalPredicate(info *types.Info, fd *ast.FuncDecl, prefix string) {
 	ex := &schedExplorer{c: c, info: info, fd: fd}
 	if fd.Type.Params != nil && len(fd.Type.Params.List) > 0 {
@@ -546,7 +549,7 @@ func (c *Ctx) checkNormalPredicate(info *types.Info, fd *ast.FuncDecl, prefix st
 		}
 	}
 	if loop == nil || loopVar == nil {
-		c.Undecided("R04c", prefix+"runModeNormal:loop", fd.Pos(), "no `for i := range *procs` / `for i := 0; i < len(*procs); i++` loop (recognised idioms)")
+		c.Undecided(normalPredRule, prefix+"runModeNormal:loop", fd.Pos(), "no `for i := range *procs` / `for i := 0; i < len(*procs); i++` loop (recognised idioms)")
 		return
 	}
 	// index classification: "cur" if expr resolves to i, "prev" if i-1
@@ -703,13 +706,13 @@ func (c *Ctx) checkNormalPredicate(info *types.Info, fd *ast.FuncDecl, prefix st
 		return true
 	})
 	if pred == nil {
-		c.Viol("R04c", prefix+"runModeNormal:predicate", loop.Pos(), "no branch in runModeNormal tests the current process's &&/|| flags")
+		c.Viol(normalPredRule, prefix+"runModeNormal:predicate", loop.Pos(), "no branch in runModeNormal tests the current process's &&/|| flags")
 		return
 	}
 	atoms := []string{"A", "O", "F", "S"}
 	tt, unk := truthTable(expandBool(pred.Cond, 0), atoms, atom)
 	if len(unk) > 0 {
-		c.Undecided("R04c", prefix+"runModeNormal:predicate", pred.Cond.Pos(), "leaf %q of the skip predicate is not one of: procs[i].OperatorLogicAnd, procs[i].OperatorLogicOr, a test of procs[i-1].ExitNum that is equivalent to `!= 0` / `== 0` on all integers (negative exit numbers — `return -2`, the and/or builtins — are failures in normal mode), the skipPipeline flag", unk[0])
+		c.Undecided(normalPredRule, prefix+"runModeNormal:predicate", pred.Cond.Pos(), "leaf %q of the skip predicate is not one of: procs[i].OperatorLogicAnd, procs[i].OperatorLogicOr, a test of procs[i-1].ExitNum that is equivalent to `!= 0` / `== 0` on all integers (negative exit numbers — `return -2`, the and/or builtins — are failures in normal mode), the skipPipeline flag", unk[0])
 		return
 	}
 	bad := ""
@@ -720,7 +723,7 @@ func (c *Ctx) checkNormalPredicate(info *types.Info, fd *ast.FuncDecl, prefix st
 			bad = fmt.Sprintf("A(&&)=%v O(||)=%v prevFailed=%v skipping=%v: skip=%v, documented=%v", A, O, F, S, got, want)
 		}
 	}
-	c.Check(bad == "", "R04c", prefix+"runModeNormal:predicate", pred.Cond.Pos(), "skip predicate truth table (16 rows) equals (A∧F)∨(O∧¬F)∨(S∧(A∨O)) %s", bad)
+	c.Check(bad == "", normalPredRule, prefix+"runModeNormal:predicate", pred.Cond.Pos(), "skip predicate truth table (16 rows) equals (A∧F)∨(O∧¬F)∨(S∧(A∨O)) %s", bad)
 
 	// arms
 	setsTerm, copiesExit, setsSkipT, setsSkipF := false, false, false, false
@@ -767,10 +770,10 @@ func (c *Ctx) checkNormalPredicate(info *types.Info, fd *ast.FuncDecl, prefix st
 			}
 		}
 	}
-	c.Check(setsTerm, "R04c", prefix+"runModeNormal:skip-arm:terminated", pred.Body.Pos(), "the skip arm marks procs[i] terminated (so executeProcess does not run it)")
-	c.Check(copiesExit, "R04c", prefix+"runModeNormal:skip-arm:exitnum", pred.Body.Pos(), "the skip arm sets procs[i].ExitNum = procs[i-1].ExitNum (a skipped command takes the exit number of the command before it)")
-	c.Check(setsSkipT, "R04c", prefix+"runModeNormal:skip-arm:flag", pred.Body.Pos(), "the skip arm sets the chain-skipping flag")
-	c.Check(setsSkipF, "R04c", prefix+"runModeNormal:run-arm:flag", pred.Pos(), "the run arm clears the chain-skipping flag (a `;` or a command that runs ends the skipped chain)")
+	c.Check(setsTerm, normalPredRule, prefix+"runModeNormal:skip-arm:terminated", pred.Body.Pos(), "the skip arm marks procs[i] terminated (so executeProcess does not run it)")
+	c.Check(copiesExit, normalPredRule, prefix+"runModeNormal:skip-arm:exitnum", pred.Body.Pos(), "the skip arm sets procs[i].ExitNum = procs[i-1].ExitNum (a skipped command takes the exit number of the command before it)")
+	c.Check(setsSkipT, normalPredRule, prefix+"runModeNormal:skip-arm:flag", pred.Body.Pos(), "the skip arm sets the chain-skipping flag")
+	c.Check(setsSkipF, normalPredRule, prefix+"runModeNormal:run-arm:flag", pred.Pos(), "the run arm clears the chain-skipping flag (a `;` or a command that runs ends the skipped chain)")
 	// skipVar is assigned nowhere else
 	if skipVar != nil {
 		// stores = assignments; declaring the flag with its zero value (`skipPipeline := false`,
@@ -803,7 +806,7 @@ func (c *Ctx) checkNormalPredicate(info *types.Info, fd *ast.FuncDecl, prefix st
 			}
 			return true
 		})
-		c.Check(n == 2, "R04c", prefix+"runModeNormal:flag-stores", pred.Pos(), "the chain-skipping flag is stored only in the two arms (%d stores)", n)
+		c.Check(n == 2, normalPredRule, prefix+"runModeNormal:flag-stores", pred.Pos(), "the chain-skipping flag is stored only in the two arms (%d stores)", n)
 	}
 	// the predicate is evaluated only for i > 0 and after the wait
 	okGuard := false
@@ -822,5 +825,5 @@ func (c *Ctx) checkNormalPredicate(info *types.Info, fd *ast.FuncDecl, prefix st
 			}
 		}
 	}
-	c.Check(okGuard, "R04c", prefix+"runModeNormal:first-always-runs", pred.Pos(), "the predicate is evaluated exactly for i>0 (the first command of a block always runs; every later command is examined)")
+	c.Check(okGuard, normalPredRule, prefix+"runModeNormal:first-always-runs", pred.Pos(), "the predicate is evaluated exactly for i>0 (the first command of a block always runs; every later command is examined)")
 }
